@@ -94,6 +94,7 @@ def main():
     except GenError as e:
         run.proof_broken.append('translator: ' + str(e))
     run.check_proofs(deps=['theories/Model/Abi.vo', 'theories/Spec/AbiSpec.vo', 'theories/Gen/AbiConsts.vo'])
+    NCORPUS = run_corpus(run, PID, src)          # minimised past failures first
     rc, o, e = sh([os.path.join(VERIF, 'ocaml/build.sh')], timeout=900)
     if rc != 0:
         run.corr_broken.append('extracted model does not build: ' + (o + e)[-300:])
